@@ -74,7 +74,7 @@ inductive Matcher where
   /-- `tls.handshake_match.sni` with its configured names -/
   | sni (names : List Bytes)
   /-- remote_ip / local_ip / sni_regexp: `id` selects the verdict the hello carries for it -/
-  | opaque (id : Nat)
+  | other (id : Nat)
 
 /-- what a ClientHello looks like to the matchers -/
 structure Hello where
@@ -88,7 +88,7 @@ def sniMatch (sni : Bytes) : List Bytes → Bool
 
 def Matcher.eval (h : Hello) : Matcher → Bool
   | .sni names => sniMatch h.sni names
-  | .opaque id => h.verdict id
+  | .other id => h.verdict id
 
 structure Policy where
   matchers : List Matcher
@@ -144,7 +144,7 @@ def indexNames (v : Nat × Policy) : Index → List Bytes → Index
 def indexMatchers (live : Bool) (v : Nat × Policy) : Index → List Matcher → Index
   | m, [] => m
   | m, .sni names :: ms => indexMatchers live v (if live then indexNames v m names else m) ms
-  | m, .opaque _ :: ms => indexMatchers live v m ms
+  | m, .other _ :: ms => indexMatchers live v m ms
 
 /-- `for _, p := range cp { … }` -/
 def indexPolicies (live : Bool) : Index → List (Nat × Policy) → Index
